@@ -1278,7 +1278,6 @@ func usesCryptoRand(fn *ssa.Function) bool {
 	return found
 }
 
-
 // isZeroValue: the zero value of a type (a nil-valued constant of struct type or an empty composite).
 func isZeroValue(v ssa.Value) bool {
 	c, ok := v.(*ssa.Const)
